@@ -8,6 +8,7 @@ package main
 
 import (
 	"fmt"
+	"sort"
 	"strings"
 
 	"github.com/go-gts/gts"
@@ -107,4 +108,171 @@ func c19CliSelect(r *Run) {
 		}
 	}
 	r.notes = append(r.notes, fmt.Sprintf("gts select on the real binary: %d runs with combinations of -v / --invert-match, -s / --strand (also bundled -vs), one or two selectors", done))
+}
+
+// ---------------------------------------------------------------------------
+// shared by the real-binary oracles of the single-step commands (cli.reverse / cli.complement of C05,
+// cli.repair of C12, cli.search of C18, cli.sort below): the record generator and the comparison with
+// the documented composition, computed with the library functions the respective check verifies on
+// their own
+
+// cliRecord: a record of L residues over `alphabet` with a table built by Insert from the features
+// whose qualifiers survive the GenBank writer / reader; nil when the binary would not read that record
+func cliRecord(r *rng, feats []gts.Feature, L int, alphabet string) gts.Sequence {
+	ff := gts.FeatureSlice{}
+	for _, f := range feats {
+		if !c19PropsWf(f.Props) {
+			continue
+		}
+		ff = ff.Insert(f)
+	}
+	res := make([]byte, L)
+	for i := range res {
+		res[i] = alphabet[r.intn(len(alphabet))]
+	}
+	return c15Faithful(gts.New(nil, ff, res), false)
+}
+
+// cliExpect: the record the binary is expected to write for `want`, as it reads back from a GenBank file
+// (nil: the expected record is not stable under write / read — counted, not compared)
+func cliExpect(want gts.Sequence) (exp gts.Sequence) {
+	defer func() {
+		if recover() != nil {
+			exp = nil
+		}
+	}()
+	return c15Faithful(gts.New(nil, want.Features(), want.Bytes()), false)
+}
+
+// cliOneRecord runs `gts <args>` on the record and compares the one record it writes with `want`
+func cliOneRecord(r *Run, tag, oracle string, args []string, files map[string][]byte, seq, want gts.Sequence, line string) {
+	crumb(line)
+	out := c15Run(args, c15File(seq, false), files)
+	r.eval(line, true)
+	verdict, got := c15Answer(out, false)
+	if verdict == "PANIC" || verdict == "HANG" || verdict == "ERR" || len(got) != 1 {
+		r.fail(Failure{Oracle: "gts " + tag + " runs and writes one record per record read", Op: line, Got: fmt.Sprintf("%s, %d records", verdict, len(got))})
+		return
+	}
+	exp := cliExpect(want)
+	if exp == nil {
+		r.count("cli-" + tag + "/expected-record-not-stable")
+		return
+	}
+	if g, w := encSeq(gts.New(nil, got[0].Features(), got[0].Bytes())), encSeq(exp); g != w {
+		r.fail(Failure{Oracle: oracle, Op: line, Got: g, Want: w})
+	}
+}
+
+// c19CliSort: `gts sort [-r]` on a stream of records of different (and equal) lengths — the output is a
+// permutation of the input records, longest first (`-r`: shortest first); the order among records of one
+// length is not specified (sort.Sort is not stable) and not compared
+func c19CliSort(r *Run) {
+	n := 40
+	if r.tier == "thorough" {
+		n = 300
+	}
+	done := 0
+	for t := 0; t < 20*n && done < n; t++ {
+		k := 2 + r.rng.intn(5)
+		var in []gts.Sequence
+		var text []byte
+		lens := []int{}
+		for i := 0; i < k; i++ {
+			L := 4 + r.rng.intn(6)
+			if i > 0 && r.rng.intn(3) == 0 {
+				L = lens[r.rng.intn(len(lens))] // ties
+			}
+			seq := cliRecord(r.rng, nil, L, "acgt")
+			if seq == nil {
+				break
+			}
+			lens = append(lens, L)
+			in = append(in, seq)
+			text = append(text, c15File(seq, false)...)
+		}
+		if len(in) != k {
+			continue
+		}
+		rev := r.rng.intn(2) == 0
+		args := []string{"sort", "--no-cache"}
+		if rev {
+			args = append(args, []string{"-r", "--reverse"}[r.rng.intn(2)])
+		}
+		line := fmt.Sprintf("cli.sort %s | %v", strings.Join(args[2:], " "), lens)
+		crumb(line)
+		out := c15Run(args, text, nil)
+		done++
+		r.count(fmt.Sprintf("cli-sort/reverse=%v,records=%d", rev, k))
+		r.eval(line, true)
+		verdict, got := c15Answer(out, false)
+		if verdict == "PANIC" || verdict == "HANG" || verdict == "ERR" || len(got) != k {
+			r.fail(Failure{Oracle: "gts sort runs and writes every record it read", Op: line, Got: fmt.Sprintf("%s, %d records", verdict, len(got))})
+			continue
+		}
+		gl := make([]int, k)
+		a, b := make([]string, k), make([]string, k)
+		for i := range got {
+			gl[i] = gts.Len(got[i])
+			a[i], b[i] = string(got[i].Bytes()), string(in[i].Bytes())
+		}
+		sort.Strings(a)
+		sort.Strings(b)
+		if strings.Join(a, ",") != strings.Join(b, ",") {
+			r.fail(Failure{Oracle: "gts sort writes a permutation of the records it read", Op: line, Got: fmt.Sprint(a), Want: fmt.Sprint(b)})
+			continue
+		}
+		for i := 0; i+1 < k; i++ {
+			if !rev && gl[i] < gl[i+1] || rev && gl[i] > gl[i+1] {
+				r.fail(Failure{Oracle: "gts sort writes the records longest first (-r: shortest first)", Op: line, Got: fmt.Sprint(gl)})
+				break
+			}
+		}
+	}
+	r.notes = append(r.notes, fmt.Sprintf("gts sort on the real binary: %d runs, 2..6 records with repeated lengths, with and without -r / --reverse", done))
+}
+
+// c19CliClearDefine: `gts clear` (exactly the source features stay) and `gts define key location [-q name=value]`
+// (the feature is inserted where FeatureSlice.Insert puts it) on the real binary
+func c19CliClearDefine(r *Run) {
+	n := 30
+	if r.tier == "thorough" {
+		n = 200
+	}
+	done := 0
+	for t := 0; t < 20*n && done < n; t++ {
+		L := 12 + r.rng.intn(20)
+		seq := cliRecord(r.rng, c19GenTable(r.rng, L), L, "acgt")
+		if seq == nil || len(seq.Features()) == 0 {
+			continue
+		}
+		done++
+		if done%2 == 0 {
+			var want gts.FeatureSlice
+			for _, f := range seq.Features() {
+				if f.Key == "source" {
+					want = append(want, f)
+				}
+			}
+			r.count(fmt.Sprintf("cli-clear/sources=%d", len(want)))
+			cliOneRecord(r, "clear", "gts clear keeps exactly the source features, in table order", []string{"clear", "--no-cache"}, nil, seq,
+				gts.New(nil, want, seq.Bytes()), fmt.Sprintf("cli.clear | %s", encSeq(seq)))
+			continue
+		}
+		s := r.rng.intn(L - 1)
+		loc := gts.Range(s, s+1+r.rng.intn(L-s-1))
+		key := []string{"gene", "misc_feature", "source"}[r.rng.intn(3)]
+		props := gts.Props{}
+		args := []string{"define", "--no-cache"}
+		if r.rng.intn(2) == 0 {
+			args = append(args, "-q", "note=a=b")
+			props.Add("note", "a=b")
+		}
+		args = append(args, key, loc.String())
+		want := gts.FeatureSlice(append([]gts.Feature{}, seq.Features()...)).Insert(gts.NewFeature(key, loc, props))
+		r.count("cli-define/key=" + key)
+		cliOneRecord(r, "define", "gts define inserts the one feature (key, location, -q qualifiers) where FeatureSlice.Insert puts it", args, nil, seq,
+			gts.New(nil, want, seq.Bytes()), fmt.Sprintf("cli.define %s | %s", strings.Join(args[2:], " "), encSeq(seq)))
+	}
+	r.notes = append(r.notes, fmt.Sprintf("gts clear / gts define on the real binary: %d runs", done))
 }
